@@ -87,3 +87,36 @@ M("C13", "twin-early-continue", SEQ,
   "", expect="silent")
 M("C13", "twin-ifexp-aggregate", PRB, "sum(m and -fit or +fit for (fit, m) in zip(components, self.minimize))",
   "sum((-fit if m else fit) for (fit, m) in zip(components, self.minimize))", "", expect="silent")
+
+# ------------------------------------------------------------------------------------- C14
+BUD = "geneticengine/evaluation/budget.py"
+M("C14", "budget-gt", BUD, "return tracker.get_number_evaluations() >= self.evaluations_budget", "return tracker.get_number_evaluations() > self.evaluations_budget", "C14.R3")
+M("C14", "budget-eq", BUD, "return tracker.get_number_evaluations() >= self.evaluations_budget", "return tracker.get_number_evaluations() == self.evaluations_budget", "C14.R3")
+M("C14", "anyof-and", BUD, "return self.a.is_done(tracker) or self.b.is_done(tracker)", "return self.a.is_done(tracker) and self.b.is_done(tracker)", "C14.R3")
+M("C14", "anyof-same-member", BUD, "return self.a.is_done(tracker) or self.b.is_done(tracker)", "return self.a.is_done(tracker) or self.a.is_done(tracker)", "C14.R3")
+M("C14", "target-none-true", BUD, "        if best is None:\n            return False", "        if best is None:\n            return True", "C14.R3")
+M("C14", "loop-extra-condition", "geneticengine/algorithms/random_search.py", "while not self.is_done():", "while not self.is_done() and self.tracker.get_best_individual() is None:", "C14.R1")
+M("C14", "loop-break", "geneticengine/algorithms/one_plus_one.py", "            self.tracker.evaluate([ind])\n", "            self.tracker.evaluate([ind])\n            if self.tracker.get_number_evaluations() > 1000:\n                break\n", "C14.R1")
+M("C14", "hc-branch-without-evaluation", "geneticengine/algorithms/hill_climbing.py", "                self.tracker.evaluate(neighbourhood)\n", "                current_ind = max(neighbourhood, key=id)\n", "C14.R2")
+M("C14", "twin-budget-mirrored", BUD, "return tracker.get_number_evaluations() >= self.evaluations_budget", "return self.evaluations_budget <= tracker.get_number_evaluations()", "", expect="silent")
+M("C14", "twin-anyof-swapped", BUD, "return self.a.is_done(tracker) or self.b.is_done(tracker)", "return self.b.is_done(tracker) or self.a.is_done(tracker)", "", expect="silent")
+
+# ------------------------------------------------------------------------------------- C17
+SEL = "geneticengine/algorithms/gp/operators/selection.py"
+M("C17", "tournament-min", SEL, "winner = max(candidates, key=Individual.key_function(problem))", "winner = min(candidates, key=Individual.key_function(problem))", "C17.R1")
+M("C17", "tournament-raw-component-key", SEL, "winner = max(candidates, key=Individual.key_function(problem))",
+  "winner = max(candidates, key=lambda i: i.get_fitness(problem).fitness_components[0])", "C17.R1")
+M("C17", "tournament-yield-first", SEL, "            yield winner\n\n            if not self.with_replacement:", "            yield candidates[0]\n\n            if not self.with_replacement:", "C17.R1")
+M("C17", "tournament-one-less", SEL, "for _ in range(self.tournament_size)]", "for _ in range(self.tournament_size - 1)]", "C17.R1")
+M("C17", "key-function-negated", "geneticengine/solutions/individual.py", "return ind.get_fitness(problem)[0]", "return -ind.get_fitness(problem)[0]", "C17.R1")
+M("C17", "lexicase-shuffle-hoisted", SEL,
+  "        for _ in range(target_size):\n            cases = random.shuffle(list(range(n_cases)))\n",
+  "        cases = random.shuffle(list(range(n_cases)))\n        for _ in range(target_size):\n", "C17.R2")
+M("C17", "lexicase-best-direction", SEL, "choose_best = min if problem.minimize[c] else max", "choose_best = max if problem.minimize[c] else min", "C17.R3")
+M("C17", "lexicase-compare-direction", SEL, "add_candidate = fitness.fitness_components[c] <= checking_value\n                    else:\n                        add_candidate = fitness.fitness_components[c] >= checking_value",
+  "add_candidate = fitness.fitness_components[c] >= checking_value\n                    else:\n                        add_candidate = fitness.fitness_components[c] <= checking_value", "C17.R3")
+M("C17", "lexicase-strict", SEL, "add_candidate = fitness.fitness_components[c] <= checking_value", "add_candidate = fitness.fitness_components[c] < checking_value", "C17.R3")
+M("C17", "lexicase-epsilon-direction", SEL, "checking_value = best_fitness + mad if problem.minimize[c] else best_fitness - mad", "checking_value = best_fitness - mad if problem.minimize[c] else best_fitness + mad", "C17.R3")
+M("C17", "lexicase-best-over-all", SEL, "fitness_components[c] for x in candidates_to_check])", "fitness_components[c] for x in candidates])", "C17.R3")
+M("C17", "lexicase-no-remove", SEL, "            yield winner\n            candidates.remove(winner)\n", "            yield winner\n", "C17.R4")
+M("C17", "twin-best-negated-test", SEL, "choose_best = min if problem.minimize[c] else max", "choose_best = max if not problem.minimize[c] else min", "", expect="silent")
